@@ -358,3 +358,45 @@ func c18UseWithoutHref(c *core.Check) {
 	})
 	r.Cond(ok, key, p.Pos(fn.Pos()), "the fetcher is called only for a non-empty href", "the fetcher is reached although href was found empty")
 }
+
+// c18PathIsCopied (R22): the path parser is shared by all the <path> elements of a document and reuses its buffer
+// (reset keeps the array).  What parsePath returns is a copy: a slice of the buffer itself, even with its capacity
+// capped, is overwritten by the next path that is parsed (the first path of a document drawn with the segments of the
+// later ones).  Every slice returned by parsePath is nil or the result of an append to nil (or to a fresh slice).
+func c18PathIsCopied(c *core.Check) {
+	p := c.Prog
+	r := c.Rule("R22", "a parsed path does not alias the parser's buffer: every non-nil slice returned by svg.(*pathParser).parsePath is the result of an append whose base is nil or a fresh slice, not a slice or a load of a field of the parser", 1)
+	fn := p.Method("svg", "pathParser", "parsePath")
+	if fn == nil {
+		r.Anchor("svg.(*pathParser).parsePath")
+		return
+	}
+	n := 0
+	core.Instrs(fn, func(in ssa.Instruction) {
+		ret, ok := in.(*ssa.Return)
+		if !ok || len(ret.Results) == 0 {
+			return
+		}
+		v := ret.Results[0]
+		if k, ok := v.(*ssa.Const); ok && k.IsNil() {
+			return
+		}
+		n++
+		key := fmt.Sprintf("svg.(*pathParser).parsePath | returned path #%d", n)
+		fresh := false
+		if call, ok := v.(*ssa.Call); ok {
+			if b, ok := call.Call.Value.(*ssa.Builtin); ok && b.Name() == "append" && len(call.Call.Args) > 0 {
+				switch base := call.Call.Args[0].(type) {
+				case *ssa.Const:
+					fresh = base.IsNil()
+				case *ssa.MakeSlice:
+					fresh = true
+				}
+			}
+		}
+		r.Cond(fresh, key, p.Pos(ret.Pos()), "a copy (append to nil or to a fresh slice)", "the returned path is not a copy of the parser's buffer: the next path parsed with the same parser overwrites it")
+	})
+	if n == 0 {
+		r.Unknown("svg.(*pathParser).parsePath | returned path", p.Pos(fn.Pos()), "no non-nil slice returned")
+	}
+}
